@@ -100,7 +100,7 @@ theorem back_ofNat {s : List Int} {k : Nat} (h : k < s.length) : back s (Int.ofN
   rw [if_neg (ofNat_ne_FILL k), getI?_ofNat, List.getElem?_eq_getElem h]; rfl
 
 /-- the dictionary lookup is undone by reading the recorded source index -/
-theorem back_remap {s : List Int} {x : Int} (h : x = FILL ∨ x ∈ s) (hs : FILL ∉ s) :
+theorem back_remap {s : List Int} {x : Int} (h : x = FILL ∨ x ∈ s) :
     back s (remap s x) = x := by
   by_cases hx : x = FILL
   · rw [hx, remap_fill, back_fill]
@@ -112,21 +112,21 @@ theorem back_remap {s : List Int} {x : Int} (h : x = FILL ∨ x ∈ s) (hs : FIL
     exact List.getElem_idxOf (idxOf_lt hm)
 
 theorem remap_inj {s : List Int} {x y : Int} (hx : x = FILL ∨ x ∈ s) (hy : y = FILL ∨ y ∈ s)
-    (hs : FILL ∉ s) (h : remap s x = remap s y) : x = y := by
-  rw [← back_remap hx hs, ← back_remap hy hs, h]
+    (h : remap s x = remap s y) : x = y := by
+  rw [← back_remap hx, ← back_remap hy, h]
 
 theorem remap_bound {s : List Int} {x : Int} (hx : x ∈ s) (hne : x ≠ FILL) :
     0 ≤ remap s x ∧ remap s x < s.length := by
   rw [remap_of_ne hne]
   exact ⟨Int.natCast_nonneg _, Int.ofNat_lt.mpr (idxOf_lt hx)⟩
 
-theorem map_back_remap {s : List Int} {r : List Int} (h : ∀ x ∈ r, x = FILL ∨ x ∈ s) (hs : FILL ∉ s) :
+theorem map_back_remap {s : List Int} {r : List Int} (h : ∀ x ∈ r, x = FILL ∨ x ∈ s) :
     (r.map (remap s)).map (back s) = r := by
   rw [List.map_map]
   conv => rhs; rw [← List.map_id r]
   apply List.map_congr_left
   intro x hx
-  simp [back_remap (h x hx) hs]
+  simp [back_remap (h x hx)]
 
 /-- renumbering is strictly increasing on the selected indices (they are kept in ascending
     order), so a sorted pair stays sorted -/
@@ -156,13 +156,7 @@ theorem remap_mono {l : List Int} {a b : Int} (ha : a ∈ sel l) (hb : b ∈ sel
 
 theorem sortPair_swap (p : Int × Int) : sortPair (p.2, p.1) = sortPair p := by
   unfold sortPair
-  by_cases h1 : p.2 ≤ p.1
-  · by_cases h2 : p.1 ≤ p.2
-    · have : p.1 = p.2 := by omega
-      simp [h1, h2]; exact ⟨this.symm, this⟩
-    · simp [h1, h2]
-  · have h2 : p.1 ≤ p.2 := by omega
-    simp [h1, h2]
+  split <;> split <;> (apply Prod.ext <;> simp <;> omega)
 
 theorem sortPair_cases (p : Int × Int) : sortPair p = p ∨ sortPair p = (p.2, p.1) := by
   unfold sortPair; split <;> simp
@@ -215,17 +209,15 @@ theorem faceOf_map {g : Int → Int} (hg : ∀ x, g x = FILL ↔ x = FILL) (r : 
     faceOf (r.map g) = (faceOf r).map g := by
   unfold faceOf
   rw [List.takeWhile_map]
-  congr 1
-  induction r with
-  | nil => rfl
-  | cons a r ih =>
-    have : ((fun x => x != FILL) ∘ g) a = (a != FILL) := by
-      simp only [Function.comp]
-      by_cases ha : a = FILL
-      · simp [ha, (hg FILL).mpr rfl]
-      · have : g a ≠ FILL := fun h => ha ((hg a).mp h)
-        simp [ha, this]
-    simp only [List.takeWhile_cons, this, ih]
+  have : ((fun x => x != FILL) ∘ g) = (fun x => x != FILL) := by
+    funext a
+    show (g a != FILL) = (a != FILL)
+    by_cases ha : a = FILL
+    · have h1 : g a = FILL := (hg a).mpr ha
+      rw [h1, ha]
+    · have h1 : g a ≠ FILL := fun h => ha ((hg a).mp h)
+      rw [bne_iff_ne.mpr h1, bne_iff_ne.mpr ha]
+  rw [this]
 
 theorem segs_map {α β} (g : α → β) (l : List α) :
     segs (l.map g) = (segs l).map (fun q => (g q.1, g q.2)) := by
